@@ -4251,7 +4251,9 @@ class Or(ParseExpression):
         super().__init__(exprs, savelist)
         if self.exprs:
             self._may_return_empty = any(e.mayReturnEmpty for e in self.exprs)
-            self.skipWhitespace = all(e.skipWhitespace for e in self.exprs)
+            self.skipWhitespace = all(
+                e.skipWhitespace and not isinstance(e, White) for e in self.exprs
+            )
             self.saveAsList = any(e.saveAsList for e in self.exprs)
         else:
             self._may_return_empty = True
@@ -4410,7 +4412,9 @@ class MatchFirst(ParseExpression):
         super().__init__(exprs, savelist)
         if self.exprs:
             self._may_return_empty = any(e.mayReturnEmpty for e in self.exprs)
-            self.skipWhitespace = all(e.skipWhitespace for e in self.exprs)
+            self.skipWhitespace = all(
+                e.skipWhitespace and not isinstance(e, White) for e in self.exprs
+            )
             self.saveAsList = any(e.saveAsList for e in self.exprs)
         else:
             self._may_return_empty = True
